@@ -419,6 +419,7 @@ func init() {
 var _ = os.Remove
 
 func init() {
+	polcap := func(j reg.Job, n int) reg.Job { j.Args["polcap"] = fmt.Sprint(n); return j }
 	of := func(j reg.Job) reg.Job { j.Args["putonly"] = "1"; return j }
 	pj := func(part, label, build, server, progs string, bound, budget int, alloc bool) reg.Job {
 		a := map[string]string{"server": server, "progs": progs, "bound": fmt.Sprint(bound)}
@@ -463,7 +464,7 @@ func init() {
 					pj("C02/sched", "os W=2 six reads db2", "instr-w2", "os", "reads6", 2, 100, false),
 					pj("C02/sched", "rs W=2 twelve reads db2", "instr-w2", "rs", "reads12", 2, 100, false),
 					pj("C02/sched", "rs W=2 over-long read requests, two listings db2", "instr-w2", "rs", "longlen+twodirs", 2, 100, false),
-					pj("C02/sched", "os W=2 over-long read requests, two listings db2", "instr-w2", "os", "longlen+twodirs", 2, 100, false),
+					polcap(pj("C02/sched", "os W=2 over-long read requests, two listings db2", "instr-w2", "os", "longlen+twodirs", 2, 100, false), 1),
 				}
 			}
 			js = withPolicies(tier, js, func(j reg.Job) bool { return j.Args["server"] != "os" })
@@ -530,11 +531,11 @@ func init() {
 					pj("C18/sched", "rs W=2 db2 path kept across buffer reuse", "instr-w2", "rs", "pathkeep", 2, 100, true),
 					pj("C18/sched", "os W=2 db2 path kept across buffer reuse", "instr-w2", "os", "pathkeep", 2, 100, true),
 					pj("C18/sched", "rs W=2 db2 six reads (more pages outstanding than the pool keeps), over-long reads", "instr-w2", "rs", "reads6+longlen", 2, 100, true),
-					pj("C18/sched", "os W=2 db2 six reads, over-long reads, two listings", "instr-w2", "os", "reads6+longlen+twodirs", 2, 100, true),
+					polcap(pj("C18/sched", "os W=2 db2 six reads, over-long reads, two listings", "instr-w2", "os", "reads6+longlen+twodirs", 2, 100, true), 1),
 					{Part: "C18/pair", Build: "instr-w2", Args: map[string]string{"server": "rs", "bound": "2"}, Shards: 16, BudgetS: 100, Label: "rs W=2 db2 two servers from one option list"},
 					{Part: "C18/pair", Build: "instr-w2", Args: map[string]string{"server": "os", "bound": "1"}, Shards: 16, BudgetS: 100, Label: "os W=2 db1 two servers from one option list"},
 					pj("C18/sched", "rs W=2 db2 attribute blocks decoded late", "instr-w2", "rs", "attrpipe", 2, 100, true),
-					pj("C18/sched", "os W=2 db2 attribute blocks decoded late", "instr-w2", "os", "attrpipe", 2, 100, true),
+					polcap(pj("C18/sched", "os W=2 db2 attribute blocks decoded late", "instr-w2", "os", "attrpipe", 2, 100, true), 1),
 				}
 			}
 			js = withPolicies(tier, js, func(j reg.Job) bool { return j.Args["server"] != "os" })
